@@ -439,6 +439,9 @@ def run(ctx):
     from ..core import borrow
     from . import c15
     borrow(ctx, "C01", c15.rule_cx, ctx.cx)
+    # shared clause: each axis's boundary mode reaches the engine's slot of that axis -- otherwise the Euler step exchanges
+    # matter with other neighbours than the kinetics functions do
+    borrow(ctx, "C01", c15.rule_axis_table, py, tu)
     from .. import lints
     lints.run(ctx, "C01", ctx.py, ["kinetics", "rdsystem", "librdengine"])
     ctx.assume("agreement to rounding is not decided; that the mean is harmonic is decided only relatively (all four "
